@@ -129,12 +129,13 @@ func verifFast() bool                   { return atomic.LoadInt32(&verifFastFoll
 func verifStartCh(db *DB) chan struct{} { return verifDB(db).startCh }
 func verifSubscribed(db *DB)            { atomic.AddInt64(&verifDB(db).subscribed, 1) }
 
-func verifJoined(db *DB, stream string) {
+func verifJoined(db *DB, stream string, id common.FollowerID) {
 	s := verifDB(db)
 	s.mx.Lock()
 	s.joins++
 	delete(s.dispatched, stream)
 	delete(s.dispMarker, stream)
+	delete(s.submitted, id)
 	s.mx.Unlock()
 }
 
